@@ -11,7 +11,9 @@ package c14
 
 import (
 	"encoding/binary"
+	"errors"
 	"fmt"
+	"net"
 	"strings"
 	"sync/atomic"
 	"testing"
@@ -132,6 +134,79 @@ func buildStatement(c e2eCase, tag string) (string, []int) {
 	return b.String(), offs
 }
 
+// ---- telling load from defects ----
+
+// transport reports whether err is transport-level trouble that a loaded machine
+// can produce without any defect (deadline exceeded, connection torn down).
+func transport(err error) bool {
+	if err == nil {
+		return false
+	}
+	var ne net.Error
+	if errors.As(err, &ne) && ne.Timeout() {
+		return true
+	}
+	m := err.Error()
+	return strings.Contains(m, "i/o timeout") || strings.Contains(m, "connection reset") || strings.Contains(m, "broken pipe")
+}
+
+// outOfSync reports whether err says the client found a packet that does not
+// belong to the answer it was reading (rawclient checks every sequence id).
+func outOfSync(err error) bool {
+	return err != nil && (strings.Contains(err.Error(), "rawclient: sequence") || strings.Contains(err.Error(), "bad "))
+}
+
+func showResult(r *rawclient.Result) string {
+	if r == nil {
+		return "<no result>"
+	}
+	if r.Err != nil {
+		return "ERR " + r.Err.Error()
+	}
+	if r.OK {
+		return fmt.Sprintf("OK affected=%d status=%#x", r.Affected, r.Status)
+	}
+	var b strings.Builder
+	fmt.Fprintf(&b, "resultset %d cols %d rows", len(r.Cols), len(r.Rows)+len(r.RawRows))
+	for i, row := range r.Rows {
+		if i == 3 {
+			b.WriteString(" ...")
+			break
+		}
+		b.WriteString(" [")
+		for j, cell := range row {
+			if j > 0 {
+				b.WriteString(",")
+			}
+			fmt.Fprintf(&b, "%q", cell)
+		}
+		b.WriteString("]")
+	}
+	return b.String()
+}
+
+func showResults(rs []*rawclient.Result) string {
+	parts := make([]string, len(rs))
+	for i, r := range rs {
+		parts[i] = showResult(r)
+	}
+	return "{" + strings.Join(parts, "; ") + "}"
+}
+
+// alive sends COM_PING and reports: answered (an OK with the right sequence id:
+// the proxy is serving this connection and has nothing older to send), or not
+// (transport trouble, or packets that do not belong to the ping).
+func alive(cli *rawclient.Conn) (answered bool, detail string) {
+	r, err := cli.Ping()
+	if err != nil {
+		return false, err.Error()
+	}
+	if r == nil || !r.OK {
+		return false, showResult(r)
+	}
+	return true, ""
+}
+
 func isEOFPacket(p []byte) bool { return len(p) > 0 && p[0] == 0xfe && len(p) <= 5 }
 
 func checkE2E(c e2eCase) (o pbt.Outcome) {
@@ -176,7 +251,7 @@ func checkE2E(c e2eCase) (o pbt.Outcome) {
 		return
 	}
 	defer cli.Close()
-	cli.Timeout = 30 * time.Second
+	cli.Timeout = 120 * time.Second // generous: the machine may be heavily loaded
 
 	text, offs := buildStatement(c, tag)
 	// the harness's own view of the markers must be the construction's
@@ -213,7 +288,11 @@ func checkE2E(c e2eCase) (o pbt.Outcome) {
 	}
 	first, err := cli.ReadPacket()
 	if err != nil {
-		o.Violation = fmt.Sprintf("no response to COM_STMT_PREPARE of a statement with %d markers (%d bytes): %v", c.N, len(text), err)
+		if transport(err) {
+			o.Skip = "inconclusive: no response to COM_STMT_PREPARE within the deadline (transport)"
+			return
+		}
+		o.Violation = fmt.Sprintf("COM_STMT_PREPARE of a statement with %d markers (%d bytes): response unreadable: %v", c.N, len(text), err)
 		return
 	}
 	if len(first) > 0 && first[0] == 0xff {
@@ -222,8 +301,8 @@ func checkE2E(c e2eCase) (o pbt.Outcome) {
 		if c.N <= 65535 {
 			o.Labels = append(o.Labels, "prepare_rejected_within_limit")
 		}
-		if _, err := cli.Ping(); err != nil {
-			o.Violation = fmt.Sprintf("connection unusable after a rejected prepare (%d markers): %v", c.N, err)
+		if _, err := cli.Ping(); err != nil && outOfSync(err) {
+			o.Violation = fmt.Sprintf("client out of sync after a rejected prepare (%d markers): %v", c.N, err)
 		}
 		return
 	}
@@ -236,11 +315,7 @@ func checkE2E(c e2eCase) (o pbt.Outcome) {
 	numParams := int(binary.LittleEndian.Uint16(first[7:]))
 	if numParams != c.N {
 		detail := fmt.Sprintf("prepared %q...: the statement has %d parameter markers, COM_STMT_PREPARE_OK reports num_params=%d (packet % x)", text[:min(len(text), 80)], c.N, numParams, first)
-		if c.N > 65535 {
-			// C14-F4: the count is truncated to 16 bits instead of the statement being refused
-			o.Known, o.KnownWhat = "C14-F4", detail
-			return
-		}
+		// (fixed C14-F4: more than 65535 markers used to be reported truncated to 16 bits)
 		o.Violation = detail
 		return
 	}
@@ -257,7 +332,18 @@ func checkE2E(c e2eCase) (o pbt.Outcome) {
 		for {
 			pk, err := cli.ReadPacket()
 			if err != nil {
-				o.Violation = fmt.Sprintf("after COM_STMT_PREPARE_OK with %s=%d: %d definition packets, then the stream broke before EOF: %v", what, want, got, err)
+				detail := fmt.Sprintf("after COM_STMT_PREPARE_OK with %s=%d: %d definition packets, then no further packet before EOF: %v", what, want, got, err)
+				if transport(err) {
+					// load or defect? If the proxy answers a ping on this connection it has
+					// finished the prepare response: the announced packets were never sent.
+					if ok, _ := alive(cli); ok {
+						o.Violation = detail + " (the proxy answers COM_PING on the same connection, so the response was complete for it)"
+					} else {
+						o.Skip = "inconclusive: prepare response not complete within the deadline and no answer to a ping (transport)"
+					}
+					return false
+				}
+				o.Violation = detail
 				return false
 			}
 			if isEOFPacket(pk) {
@@ -282,12 +368,35 @@ func checkE2E(c e2eCase) (o pbt.Outcome) {
 		return
 	}
 	// ---- still in sync? ----
-	if r, err := cli.Ping(); err != nil || r == nil || !r.OK {
-		o.Violation = fmt.Sprintf("COM_PING after preparing a statement with %d markers: result %+v, error %v (client out of sync with the response)", c.N, r, err)
+	// Out of sync = a packet that does not belong to the answer (wrong sequence id,
+	// malformed answer) or a well-formed answer to something else. An ERR packet or
+	// a missed deadline is the proxy or the machine having trouble, not this property.
+	if r, err := cli.Ping(); err != nil {
+		if outOfSync(err) {
+			o.Violation = fmt.Sprintf("COM_PING after preparing a statement with %d markers: %v (client out of sync with the prepare response)", c.N, err)
+		} else {
+			o.Skip = "inconclusive: COM_PING after prepare: transport error"
+		}
+		return
+	} else if r == nil || !r.OK {
+		o.Skip = "inconclusive: COM_PING after prepare answered " + showResult(r)
 		return
 	}
-	if rs, err := cli.Query("select '" + tag + "q'"); err != nil || len(rs) != 1 || rs[0].Err != nil || len(rs[0].Rows) != 1 || string(rs[0].Rows[0][0]) != tag {
-		o.Violation = fmt.Sprintf("plain query after preparing a statement with %d markers did not answer correctly: %+v, %v", c.N, rs, err)
+	if rs, err := cli.Query("select '" + tag + "q'"); err != nil {
+		if outOfSync(err) {
+			o.Violation = fmt.Sprintf("plain query after preparing a statement with %d markers: %v (client out of sync with the prepare response)", c.N, err)
+		} else {
+			o.Skip = "inconclusive: plain query after prepare: transport error"
+		}
+		return
+	} else if len(rs) == 1 && rs[0].Err != nil {
+		// a well-formed error answer to this very query: in sync; the query itself failed
+		// (no backend connection in time, ...), which is not this property's business
+		o.Skip = "inconclusive: plain query after prepare answered with an error packet"
+		o.Labels = append(o.Labels, "followup_query_error")
+		return
+	} else if len(rs) != 1 || len(rs[0].Rows) != 1 || len(rs[0].Rows[0]) != 1 || string(rs[0].Rows[0][0]) != tag {
+		o.Violation = fmt.Sprintf("plain query after preparing a statement with %d markers was answered with something else: %s (expected one row [%q])", c.N, showResults(rs), tag)
 		return
 	}
 
@@ -308,7 +417,11 @@ func checkE2E(c e2eCase) (o pbt.Outcome) {
 	cl.ResetEvents()
 	res, err := cli.ExecuteRaw(rawclient.BuildExecute(stmtID, params, true))
 	if err != nil {
-		o.Violation = fmt.Sprintf("COM_STMT_EXECUTE with %d bound values: %v", c.N, err)
+		if outOfSync(err) {
+			o.Violation = fmt.Sprintf("COM_STMT_EXECUTE with %d bound values: %v (client out of sync)", c.N, err)
+		} else {
+			o.Skip = "inconclusive: COM_STMT_EXECUTE: transport error"
+		}
 		return
 	}
 	if res.Err != nil {
@@ -337,8 +450,8 @@ func checkE2E(c e2eCase) (o pbt.Outcome) {
 		}
 		o.Labels = append(o.Labels, "executed_and_compared")
 	}
-	if r, err := cli.Ping(); err != nil || r == nil || !r.OK {
-		o.Violation = fmt.Sprintf("COM_PING after executing with %d bound values: %+v, %v", c.N, r, err)
+	if _, err := cli.Ping(); err != nil && outOfSync(err) {
+		o.Violation = fmt.Sprintf("COM_PING after executing with %d bound values: %v (client out of sync)", c.N, err)
 	}
 	return
 }
